@@ -47,22 +47,16 @@ fn classify(call: &Call, mode: &str, got: &Obs) -> String {
     if got.kind == "panic" && got.text.contains("poisoned") {
         return "lock-poisoned-after-failed-call".into();
     }
-    let spell = |s: &str| -> Option<&'static str> {
-        if s.ends_with('/') || s.ends_with("/.") {
-            Some("path-trailing-slash-alias")
-        } else if s.contains("/./") || s.contains("//") || s.contains("/../") {
-            Some("path-alias")
-        } else {
-            None
-        }
+    let trailing = |s: &str| s.ends_with('/') || s.ends_with("/.");
+    let alias = |s: &str| s.contains("/./") || s.contains("//") || s.contains("/../");
+    let paths: Vec<&str> = if call.entry == Entry::File { vec![&call.query, &call.schema] } else { vec![&call.schema] };
+    let c = if paths.iter().any(|p| trailing(p)) {
+        Some("path-trailing-slash-alias")
+    } else if paths.iter().any(|p| alias(p)) {
+        Some("path-alias")
+    } else {
+        None
     };
-    let mut c = None;
-    if call.entry == Entry::File {
-        c = spell(&call.query);
-    }
-    if c.is_none() {
-        c = spell(&call.schema);
-    }
     match c {
         Some(c) => c.to_string(),
         None => format!("{}-differs-from-fresh-process", mode),
